@@ -12,6 +12,9 @@ typedef struct S_ZTSN3ipr4impl12_GLOBAL__N_114std_identifierE word_t;
 #define NWORD 56
 
 /* ghost recorder behind std::vector<...>::push_back (assumed: appends a copy) */
+/* the result vector is returned by value: copying / moving it hands over the same recorded contents */
+void __ipr_container_copy(void* dst, void* src, const char* what) { }
+void __ipr_vec_init(void* vec, unsigned long n) { __CPROVER_assert(n == 0, "decompose starts from an empty vector"); }
 static const logo_t* out[64]; static unsigned n_out;
 void @{spec_push_back}(void* self, bspec_t* x) { __CPROVER_assert(n_out < 64, "vector model capacity"); out[n_out++] = x->f_spec; }
 void @{qual_push_back}(void* self, bqual_t* x) { __CPROVER_assert(n_out < 64, "vector model capacity"); out[n_out++] = x->f_qual; }
